@@ -190,10 +190,12 @@ def tags_of(body):
     tags = set()
 
     def rec(lst, levels):
-        # levels: enclosing statement lists, innermost last: [owner_kind, owner_node, yield_precedes]
+        # levels: enclosing statement lists, innermost last:
+        # [owner_kind, owner_node, yield_precedes, owner_is_followed_by_more_statements]
         pre = False
-        for s in lst:
+        for si, s in enumerate(lst):
             k = s[0]
+            fol = si < len(lst) - 1
             here = levels + [[None, None, pre]]
             if k == "break":
                 # innermost breakable construct
@@ -207,7 +209,10 @@ def tags_of(body):
                     # a yield-containing statement precedes the break inside the same clause, at the
                     # level of the break or of any enclosing statement up to the clause
                     after = pre or any(l[2] for l in levels[idx:])
-                    if after:
+                    # ... or the break sits inside a yield-containing statement of the clause that
+                    # is followed by more statements (that statement becomes a thunk of a Combine)
+                    wrapped = any(len(l) > 3 and l[3] and l[1] is not None and stmt_yields(l[1]) for l in levels[idx + 1:])
+                    if after or wrapped:
                         tags.add("break-in-yielding-switch-after-yield")
             if k == "continue":
                 for j in range(len(levels) - 1, -1, -1):
@@ -227,35 +232,35 @@ def tags_of(body):
             if k == "yieldfrom":
                 tags.add("yieldfrom")
             # recurse; the entry for the *current* list records whether a yield precedes s in it
-            cur = levels[:-1] + [[levels[-1][0], levels[-1][1], pre]] if levels else []
+            cur = levels[:-1] + [[levels[-1][0], levels[-1][1], pre] + levels[-1][3:]] if levels else []
             if k == "block":
-                rec(s[1], cur + [["block", s, False]])
+                rec(s[1], cur + [["block", s, False, fol]])
             elif k == "if":
-                rec(s[2], cur + [["if", s, False]])
+                rec(s[2], cur + [["if", s, False, fol]])
                 if s[3] is not None:
-                    rec(s[3], cur + [["if", s, False]])
+                    rec(s[3], cur + [["if", s, False, fol]])
             elif k in ("switch", "tswitch"):
                 for _, bdy in s[3]:
-                    rec(bdy, cur + [["switch", s, False]])
+                    rec(bdy, cur + [["switch", s, False, fol]])
                 if s[4] is not None:
-                    rec(s[4], cur + [["switch", s, False]])
+                    rec(s[4], cur + [["switch", s, False, fol]])
             elif k == "for":
-                rec(s[4], cur + [["for", s, False]])
+                rec(s[4], cur + [["for", s, False, fol]])
             elif k == "range":
-                rec(s[5], cur + [["for", s, False]])
+                rec(s[5], cur + [["for", s, False, fol]])
             elif k == "rawif":
                 for child in s[2]:
-                    rec(child, cur + [["if", s, False]])
+                    rec(child, cur + [["if", s, False, fol]])
             elif k == "rawstmts":
                 # a switch / type switch printed as text; its clause bodies are the child lists
                 if stmt_yields(s):
                     tags.add("yielding-switch")
                 for child in s[2]:
-                    rec(child, cur + [["switch", s, False]])
+                    rec(child, cur + [["switch", s, False, fol]])
             if stmt_yields(s):
                 pre = True
 
-    rec(body, [["func", None, False]])
+    rec(body, [["func", None, False, False]])
     return tags
 
 
@@ -856,7 +861,8 @@ class RichSampler(Sampler):
     later, range statements over literals in every variable form, delegation, and yielded
     expressions in many syntactic forms"""
 
-    EXTRA = {"VAR": 2, "MDEF": 2, "MASSIGN": 1, "SWI": 2, "TSW": 2, "FT": 1, "IIFE": 1, "CLO": 2, "RNG": 3, "YF": 2, "YX": 4, "IFI": 3, "ELSEBLK": 2, "GCH": 2}
+    EXTRA = {"VAR": 2, "MDEF": 2, "MASSIGN": 1, "SWI": 2, "TSW": 2, "FT": 1, "IIFE": 1, "CLO": 2, "RNG": 3, "YF": 2, "YX": 4, "IFI": 3, "ELSEBLK": 2, "GCH": 2,
+             "MCASE": 2, "TSWM": 2, "LDECL": 2, "COMMAOK": 2, "OPASSIGN": 2, "CHAN": 1, "EMPTY": 1, "FOR2": 2, "TAGLESS": 2, "FORNC": 2}
 
     def __init__(self, rng, weights=None, max_depth=4):
         super().__init__(rng, weights, max_depth)
@@ -882,9 +888,9 @@ class RichSampler(Sampler):
             return super().stmt(budget, ctr, loopvars, in_loop, in_switch, depth, scope)
         kinds = []
         for k, w in self.EXTRA.items():
-            if k in ("SWI", "TSW", "FT", "RNG", "IFI", "ELSEBLK", "GCH") and (depth >= self.max_depth or budget[0] < 2):
+            if k in ("SWI", "TSW", "FT", "RNG", "IFI", "ELSEBLK", "GCH", "MCASE", "TSWM", "FOR2", "TAGLESS", "FORNC") and (depth >= self.max_depth or budget[0] < 2):
                 continue
-            if k == "MASSIGN" and not scope:
+            if k in ("MASSIGN", "OPASSIGN") and not scope:
                 continue
             if k == "MDEF" and not scope[self.entry[-1]:]:
                 continue  # a mixed ':=' re-assigns only variables declared in the same block
@@ -942,6 +948,86 @@ class RichSampler(Sampler):
             v = self.fresh("iv")
             txt = ["if %s {" % ctr.guard()] + p_stmts(body, 1) + ["} else if %s := %s; %s > %s {" % (v, e, v, rng.choice(vals))] + p_stmts([("effv", 8, v)] + b2, 1) + ["}"]
             return [("rawif", "\n".join(txt), [body, [("effv", 8, v)] + b2])]
+        if k == "TAGLESS":
+            # tag-less switch (optionally with an initialiser): the clauses are conditions
+            cases = [(ctr.guard(), sub(in_loop, True)) for _ in range(rng.randint(1, 2))]
+            cases.append(("%s > %s" % (rng.choice(vals), rng.choice(vals)), sub(in_loop, True)))
+            default = sub(in_loop, True) if rng.random() < 0.5 else None
+            if rng.random() < 0.3:
+                v = self.fresh("tz")
+                cases[-1] = ("%s > %s" % (v, rng.choice(vals)), cases[-1][1])
+                return [("switch", ("decl", v, "%s + %d" % (rng.choice(vals), rng.randint(1, 9))), None, cases, default)]
+            return [("switch", None, None, cases, default)]
+        if k == "FORNC":
+            # three-clause loop without a condition: left by break / return only
+            i = self.fresh("nc")
+            body = sub(True, False, loopvars + [i], sc=list(scope))
+            return [("for", ("decl", i, "0"), None, ("inc", i), [("if", "%s >= n" % i, [("break",)], None)] + body)]
+        if k == "MCASE":
+            # case lists with several values, the default clause in the middle
+            tag = "(%s + %d) & 3" % (rng.choice(vals), rng.randint(0, 5))
+            b0, bd, b1 = strip_jumps(sub(in_loop, True)), strip_jumps(sub(in_loop, True)), strip_jumps(sub(in_loop, True))
+            lines = ["switch %s {" % tag, "case 0, 2:"] + p_stmts(b0, 1) + ["default:"] + p_stmts(bd, 1) + ["case 1:"] + p_stmts(b1, 1) + ["}"]
+            return [("rawstmts", "\n".join(lines), [b0, bd, b1])]
+        if k == "TSWM":
+            # type switch without a binding / with a binding in a multi-type clause, a nil clause
+            tv = self.fresh("tv")
+            g, g2 = ctr.guard(), ctr.guard()
+            pre = ("raw", "var %s any = %s\nif %s {\n\t%s = \"s\"\n} else if %s {\n\t%s = nil\n}" % (tv, rng.choice(vals), g, tv, g2, tv))
+            b1, b2 = strip_jumps(sub(in_loop, True)), strip_jumps(sub(in_loop, True))
+            b3 = strip_jumps(sub(in_loop, True)) if rng.random() < 0.5 else None
+            if rng.random() < 0.5:
+                head = "switch %s.(type) {" % tv
+                use = []
+            else:
+                tb = self.fresh("tb")
+                head = "switch %s := %s.(type) {" % (tb, tv)
+                use = [("raw", "_ = %s" % tb)]
+            lines = [head, "case int, string:"] + p_stmts(use + b1, 1) + ["case nil:"] + p_stmts(use + b2, 1)
+            kids = [b1, b2]
+            if b3 is not None:
+                lines += ["default:"] + p_stmts(use + b3, 1)
+                kids.append(b3)
+            lines += ["}"]
+            return [pre, ("rawstmts", "\n".join(lines), kids)]
+        if k == "LDECL":
+            # declarations other than ':=' in the body: constants, types, grouped variables
+            c, t, v, w = self.fresh("cK"), self.fresh("lT"), self.fresh("lv"), self.fresh("lw")
+            scope.append(w)
+            e = rng.choice(vals)
+            return [("raw", "const %s = %d" % (c, rng.randint(2, 9))), ("raw", "type %s struct{ f, g int }" % t),
+                    ("raw", "var (\n\t%s = %s{f: %s + %s}\n\t%s int\n)" % (v, t, e, c, w)),
+                    ("yield", "%s.f + %s.g + %d" % (v, v, rng.randint(1, 9))), ("raw", "%s.g += %s\n%s = %s.f + %s.g" % (v, c, w, v, v)), ("yield", "%s + %d" % (w, rng.randint(10, 19)))]
+        if k == "COMMAOK":
+            form = rng.choice(["map", "assert", "recv"])
+            v, ok = self.fresh("cv"), self.fresh("ok")
+            e = rng.choice(vals)
+            if form == "map":
+                m = self.fresh("cm")
+                return [("raw", "%s := map[int]int{1: %s}\n%s, %s := %s[%s&1]" % (m, e, v, ok, m, rng.choice(vals))), ("yield", "%s + %d" % (v, rng.randint(1, 9))),
+                        ("raw", "%s, %s = %s[1]" % (v, ok, m)), ("if", ok, [("yield", "%s + %d" % (v, rng.randint(10, 19)))], [("eff", ctr.eff())])]
+            if form == "assert":
+                t = self.fresh("ct")
+                return [("raw", "var %s any = %s\nif %s {\n\t%s = true\n}\n%s, %s := %s.(int)" % (t, e, ctr.guard(), t, v, ok, t)), ("yield", "%s + %d" % (v, rng.randint(1, 9))),
+                        ("if", ok, [("yield", "%s + %d" % (v, rng.randint(10, 19)))], None), ("raw", "_, %s = %s.(bool)" % (ok, t)), ("if", ok, [("eff", ctr.eff())], None)]
+            ch = self.fresh("cc")
+            return [("raw", "%s := make(chan int, 1)\n%s <- %s\nclose(%s)\n%s, %s := <-%s" % (ch, ch, e, ch, v, ok, ch)), ("yield", "%s + %d" % (v, rng.randint(1, 9))),
+                    ("raw", "%s, %s = <-%s" % (v, ok, ch)), ("if", "!" + ok, [("yield", "%s + %d" % (v, rng.randint(10, 19)))], None)]
+        if k == "OPASSIGN":
+            x = rng.choice(scope)
+            op = rng.choice(["+=", "-=", "<<=", "&^=", "|=", "^=", "%="])
+            rhs = {"<<=": "1", "%=": "7"}.get(op, "%s + %d" % (rng.choice(vals), rng.randint(1, 9)))
+            return [("raw", "%s %s %s" % (x, op, rhs)), ("yield", "%s + %d" % (x, rng.randint(1, 9))), ("raw", "%s %s %s" % (x, rng.choice(["+=", "^="]), rng.choice(vals)))]
+        if k == "CHAN":
+            ch = self.fresh("sc")
+            return [("raw", "%s := make(chan int, 2)\n%s <- %s" % (ch, ch, rng.choice(vals))), ("yield", "len(%s) + %d" % (ch, rng.randint(1, 9))),
+                    ("raw", "%s <- %s" % (ch, rng.choice(vals))), ("yield", "<-%s + <-%s" % (ch, ch))]
+        if k == "EMPTY":
+            return [("raw", ";"), ("eff", ctr.eff())]
+        if k == "FOR2":
+            i, j = self.fresh("fi"), self.fresh("fj")
+            body = sub(True, False, loopvars + [i], sc=list(scope))
+            return [("for", ("raw", "%s, %s := 0, n+1" % (i, j)), "%s < %s" % (i, j), ("raw", "%s, %s = %s+1, %s-1" % (i, j, i, j)), [("effv", 9, j)] + body)]
         if k == "GCH":
             # guard chain: the first arm ends in a jump (or return), further else-if arms complete
             # normally, no final else; the statements after the chain must still run
